@@ -79,6 +79,20 @@ msgs.append(msg("EmbV", [
     fld("VQ", "double", oneof=2),
 ], oneofs=["VChoice", "v_other", "VThird"]))
 
+# by-value embedding inside by-value embedding: the oneof of the innermost message is promoted twice
+_num[0] = 0
+msgs.append(msg("EmbInner", [
+    fld("InStr", "string"),
+    fld("InA", "string", oneof=0),
+    m("InB", "Leaf", oneof=0),
+    fld("InC", "enum", typeName="EnumTwo", oneof=0),
+], oneofs=["inner_choice"]))
+_num[0] = 0
+msgs.append(msg("EmbOuter", [
+    fld("OutStr", "string"),
+    m("InnerPart", "EmbInner", embed=True, nullable="false"),
+]))
+
 # a message that embeds a message without fields
 _num[0] = 0
 msgs.append(msg("HasEmptyEmbed", [
@@ -173,6 +187,7 @@ sink_fields += [
     # the proto name of an embedded field starts with a lower-case letter: it adds no path segment whatever it looks like
     m("emb_ptr", "Emb", embed=True),
     m("EmbVal", "EmbV", embed=True, nullable="false", jsonTag=""),
+    m("OuterPart", "EmbOuter", embed=True, nullable="false"),
     fld("CustomA", "string", customType="StrCustomA", nullable="false"),
     fld("CustomB", "string", customType="StrCustomB", card="repeated"),
     fld("CfgCustom", "string"),
@@ -183,6 +198,10 @@ sink_fields += [
     fld("CfgCustomPath", "string"),
     fld("json_named", "string", jsonTag="renamed,omitempty"),
     fld("JsonDash", "string", jsonTag="-"),
+    # tag names are used as they are written (no snake-casing): lowerCamel, a dash, a space and an upper-case letter
+    fld("JsonCamel", "string", jsonTag="kubeCluster,omitempty"),
+    fld("JsonWithDash", "int64", jsonTag="max-age"),
+    fld("JsonSpace", "string", card="repeated", jsonTag="Node Labels"),
     fld("subpackage", "string", comment=" import and package words\n"),
     # lower_snake names with a digit at the end of a segment / a one-letter segment: the attribute name is the proto name
     fld("s3_bucket", "string"),
@@ -246,6 +265,10 @@ case = {
                                                      "github.com/hashicorp/terraform-plugin-framework/tfsdk.UseStateForUnknown()"]},
                           {"k": "Sink.CustomA", "v": ["github.com/hashicorp/terraform-plugin-framework/tfsdk.RequiresReplace()"]},
                           {"k": "Sink.InnerP.Name", "v": ["github.com/hashicorp/terraform-plugin-framework/tfsdk.UseStateForUnknown()"]}],
+        # decoys: overrides for PREFIXES of imported package paths are other keys and do not apply
+        "importPathOverrides": [{"k": "github.com/hashicorp", "v": "example.com/decoy1"},
+                                {"k": "github.com/hashicorp/terraform-plugin-framework", "v": "example.com/decoy2"},
+                                {"k": "verifharness", "v": "example.com/decoy3"}],
         "customTypes": [{"k": "Sink.CfgCustom", "v": "CfgCustomC"}, {"k": "Sink.CfgCustomExpr", "v": "[]CfgCustomD"},
                         {"k": "Sink.CfgCustomPath", "v": "example.com/lib/wrappers.CfgCustomP"}],
         "suffixes": [{"k": "CfgCustomC", "v": "SfxCfgCustomC"}, {"k": "StrCustomB", "v": "SfxStrCustomB"},
